@@ -231,7 +231,7 @@ def event_to_sample(photon_number: int, max_count_per_mode: int, modes: int) -> 
     orbs = []
 
     for orb in orbits(photon_number):
-        if max(orb) <= max_count_per_mode:
+        if max(orb) <= max_count_per_mode and len(orb) <= modes:
             cards.append(orbit_cardinality(orb, modes))
             orbs.append(orb)
 
@@ -336,7 +336,7 @@ def event_cardinality(photon_number: int, max_count_per_mode: int, modes: int) -
     cardinality = 0
 
     for orb in orbits(photon_number):
-        if max(orb) <= max_count_per_mode:
+        if max(orb) <= max_count_per_mode and len(orb) <= modes:
             cardinality += orbit_cardinality(orb, modes)
 
     return cardinality
@@ -448,7 +448,7 @@ def prob_event_exact(
     prob = 0
 
     for orbit in orbits(photon_number):
-        if max(orbit) <= max_count_per_mode:
+        if max(orbit) <= max_count_per_mode and len(orbit) <= graph.order():
             prob += prob_orbit_exact(graph, orbit, n_mean, loss)
     return prob
 
